@@ -825,6 +825,40 @@ pub fn run(args: &Args, out: &mut Out) {
                 hist.add(&format!("nshape-oracle-fail:{}", shape));
             }
         }
+        // usage positions (seeded mutant C01-5): the only reference to a global / function of the module at every syntactic
+        // position the usage analysis visits, inside the scope of a local that takes the symbol's name unless it is reported used
+        let vgrid = vrun::parse_vvectors(&names::vgrid_text()).unwrap_or_default();
+        for (shape, src, vector) in names::usage_stream() {
+            nshapes += 1;
+            let before = out.oracle_fail;
+            let mut arng = Rng::new(1);
+            let mut h2 = Hist::default();
+            let r = if vector {
+                guard(|| vrun::vrun_program(&src, Some(("f1", &vgrid)), vgrid.len(), &mut arng, out, &mut h2))
+            } else {
+                guard(|| run_program(&src, Some(("f1", &grid)), grid.len(), &mut arng, out, &mut h2))
+            };
+            if let Err(pn) = r {
+                hist.add("harness-panic");
+                out.case(&format!("{}\t{}\tf1\t{}\t-\t-", if vector { "C01.vfn" } else { "C01.fn" }, one_line(&src), grid_text), "harness-panic", &format!("SKIP:harness panic {}", pn));
+            }
+            let mut it = shape.split(':');
+            let (form, code) = (it.next().unwrap_or(""), it.next().unwrap_or(""));
+            hist.add(&format!("ushape:{}:{}", form, code));
+            hist.add(if vector { "ushape-stream:vfn" } else { "ushape-stream:fn" });
+            if h2.0.contains_key("skip:front-end") || h2.0.contains_key("v:skip:front-end") {
+                hist.add(&format!("ushape-rejected-by-front-end:{}", shape));
+            }
+            if h2.0.contains_key("fn:unsupported") || h2.0.keys().any(|k| k.starts_with("v:text-unsupported") || k.starts_with("v:unsupported") || k.starts_with("text-")) {
+                hist.add(&format!("ushape-unsupported:{}", shape));
+            }
+            if h2.0.contains_key("vector:none") || h2.0.contains_key("v:vector:none") {
+                hist.add(&format!("ushape-some-vector-undefined:{}", shape));
+            }
+            if out.oracle_fail > before {
+                hist.add(&format!("ushape-oracle-fail:{}", shape));
+            }
+        }
         let nm = if args.n.is_some() { n } else if args.thorough() { 3000 } else { 200 };
         let mut nrng = Rng::new(args.seed ^ 0x4a3e_5eed);
         for _ in 0..nm {
